@@ -1,6 +1,7 @@
 import MesaModel.Proofs.Devs
 import MesaModel.Gen.DevsTables
 import MesaModel.Proofs.DevsHeap
+import MesaModel.Proofs.DevsLive
 /-!
 # C14 — the simulators run each live event once, in (time, priority, FIFO) order
 
@@ -198,6 +199,59 @@ theorem C14_priority_order_generated :
   intro a b ht ha hb
   rw [Ev.lt_iff]; omega
 
+/-! ### at least once
+
+`Served k t s`: the user event with tag `k`, scheduled for time `t`, is waiting on the list (neither cancelled nor with a dead
+callable) or has been executed with the clock at exactly `t`.  `ProgsSpare k s`: no callable (event program or step body) cancels
+tag `k` or drops its callable; `ReachableSparing k s s'`: `s'` is reached from `s` by any further history whose top-level
+commands do not cancel / drop tag `k` either (scheduling, other cancellations, runs of any kind are all allowed). -/
+
+/-- **At least once (absolute scheduling).**  An event that was accepted by `schedule_event_absolute` and that nobody cancels or
+    drops stays served through every further history: it is never lost, and when it runs the clock is the time it was
+    scheduled for. -/
+theorem C14_spared_event_is_served {s s₀ s' : Sim} {t : Int} {p a : Nat} (hs : schedAbs s t p a = .ok s₀)
+    (hps : ProgsSpare s.nextTag s) (hr : ReachableSparing s.nextTag s₀ s') : Served s.nextTag t s' := by
+  unfold schedAbs at hs
+  split at hs
+  · simp at hs
+  · split at hs
+    · simp at hs
+    · simp only [Except.ok.injEq] at hs
+      subst hs
+      exact (served_stays (pushUser_serves s t p a) hps hr).1
+
+/-- **At least once (relative scheduling, `schedule_event_now`, `schedule_event_next_tick`).** -/
+theorem C14_spared_event_is_served_rel {s s₀ s' : Sim} {d : Int} {p a : Nat} (hs : schedRel s d p a = .ok s₀)
+    (hps : ProgsSpare s.nextTag s) (hr : ReachableSparing s.nextTag s₀ s') : Served s.nextTag (s.now + d) s' := by
+  unfold schedRel at hs
+  split at hs
+  · simp at hs
+  · split at hs
+    · simp at hs
+    · simp only [Except.ok.injEq] at hs
+      subst hs
+      exact (served_stays (pushUser_serves s (s.now + d) p a) hps hr).1
+
+/-- **Every live event that is due is executed by `run_until`** — including events scheduled from inside other events, in
+    any reachable state, after any further history: after `run_until(T)` an uncancelled, undropped event scheduled for
+    `t ≤ T` is in the execution log, with the clock at `t`.  With `C14_never_twice`: exactly once. -/
+theorem C14_spared_due_event_executed {s s₀ s' s'' : Sim} {t T : Int} {p a f : Nat} (h : Reachable s)
+    (hs : schedAbs s t p a = .ok s₀) (hps : ProgsSpare s.nextTag s) (hr : ReachableSparing s.nextTag s₀ s')
+    (hT : s'.now ≤ T) (hrun : runUntil f s' T = some s'') (htT : t ≤ T) :
+    ∃ i, LogEntry.user i s.nextTag t ∈ s''.log := by
+  have h0 : Reachable s₀ := by
+    have : doCmd s (.schedAbs t p a) = s₀ := by simp [doCmd, hs]
+    rw [← this]
+    exact .cmd _ h
+  have h' : Reachable s' := reachableFrom_reachable h0 (reachableSparing_from hr)
+  have hserved := C14_spared_event_is_served hs hps (.until hr hT hrun)
+  obtain ⟨_, hpost, _⟩ := runUntil_post (reachable_inv h').1 hrun
+  rcases hserved with ⟨e, he, _, _, h3, h4, _⟩ | hlog
+  · have := hpost e he h4
+    omega
+  · exact hlog
+
+
 /-! non-vacuity: a concrete run with ties, nested scheduling and a cancellation -/
 section Example
 def exProg : Nat → List Cmd
@@ -210,6 +264,15 @@ example : (ex1.pending.map (·.tag)) = [2, 1, 0] := by decide
 example : ((runUntil 10 ex1 4096).map fun s => (s.now, s.log.map (·.id), s.gone)) =
     some (4096, [2, 1, 3], [0]) := by decide
 example : schedRel ex1 (-1) 5 0 = .error .past := rfl
+/-- the hypotheses of the at-least-once theorems are met by the event with tag 2 of `ex1` (program 1 cancels tag 0 only);
+    the event with tag 0 is cancelled from inside program 1 and is indeed not served -/
+example : ProgsSpare 2 ex0 := by
+  refine ⟨fun a => ?_, by simp [Spares, ex0, init]⟩
+  show Spares 2 (exProg a)
+  unfold Spares exProg
+  split <;> simp
+example : ((runUntil 10 ex1 4096).map fun s => s.log) =
+    some [.user 2 2 1024, .user 1 1 1024, .user 3 3 1024] := by decide
 end Example
 
 end Mesa.Devs
